@@ -18,7 +18,7 @@ Definition enc_ract (a : ract) : list nat := match a with RWrite k => [0; k] | R
 Definition enc_list {A} (f : A -> list nat) (l : list A) : list nat := List.length l :: flat_map f l.
 Definition enc_val (v : val) : list nat := [fst v; snd v].
 Definition enc_gpc (p : gpc) : list nat :=
-  match p with GSend r => 0 :: enc_list (fun i => [i]) r | GPanicCas p => [1; p] | GPanicSend p => [2; p] | GClose => [3] | GDone => [4] end.
+  match p with GSend r => 0 :: enc_list (fun i => [i]) r | GPanicCas p => [1; p] | GClose => [3] | GDone => [4] end.
 Definition enc_xpc (p : xpc) : nat :=
   match p with XCheck => 0 | XSel => 1 | XHold => 2 | XWait => 3 | XDrain => 4 | XDone => 5 end.
 Definition enc_wpc (p : wpc) : list nat :=
@@ -27,7 +27,6 @@ Definition enc_wpc (p : wpc) : list nat :=
   | WSend v a => 1 :: enc_val v ++ enc_list enc_mact a
   | WCancel k e a => 2 :: enc_cc k :: enc_err e ++ enc_list enc_mact a
   | WRecover p => 3 :: enc_pval p
-  | WPSend p => 4 :: enc_pval p
   | WFin => [5]
   | WExit => [6]
   end.
@@ -38,7 +37,6 @@ Definition enc_rpc (p : rpc) : list nat :=
   | RSend k a => 2 :: k :: enc_list enc_ract a
   | RDrain p => 3 :: match p with None => [0] | Some p => 1 :: enc_pval p end
   | RPanicCas p => 4 :: enc_pval p
-  | RPSend p => 5 :: enc_pval p
   | RFinish => [6]
   | RDone => [7]
   end.
@@ -46,7 +44,7 @@ Definition enc_out (o : outcome) : list nat :=
   match o with ORet k => [0; k] | OErr e => 1 :: enc_err e | ONoOutput => [2] | OPanic p => 3 :: enc_pval p | OPanicTwice => [4] end.
 Definition enc_cpc (p : cpc) : list nat :=
   match p with
-  | CSelect => [0] | CCancel k => [1; enc_cc k] | CDrainOut p => 2 :: enc_pval p
+  | CSelect => [0] | CCancel k => [1; enc_cc k] | CDrainOut p => 2 :: enc_pval p | COut g => 5 :: enc_opt g
   | CDefer o => 3 :: enc_out o | CDone o => 4 :: enc_out o
   end.
 Definition b2n (b : bool) : nat := if b then 1 else 0.
@@ -59,6 +57,7 @@ Definition enc_state (s : state) : list nat :=
   [b2n (collc s)] ++ enc_rpc (r s) ++ enc_cpc (c s) ++
   [b2n (ctxd s); b2n (fin s); enc_once (conce s); b2n (wrote s)] ++
   match reterr s with None => [0] | Some e => 1 :: enc_err e end ++
+  match fpanic s with None => [0] | Some p => 1 :: enc_pval p end ++
   enc_list (fun i => [i]) (drained s) ++ enc_list enc_val (recvd s) ++ enc_list enc_val (dropped s) ++
   enc_list enc_val (cdrained s).
 
